@@ -17,7 +17,7 @@ from .src import walk_no_nested
 
 
 class Node:
-    __slots__ = ("id", "kind", "ast", "lineno", "suspends", "copy_of", "const_true")
+    __slots__ = ("id", "kind", "ast", "lineno", "suspends", "copy_of", "const_true", "cfg")
 
     def __init__(self, id, kind, ast_=None):
         self.id = id
@@ -138,6 +138,7 @@ class CFG:
     # ---- construction -----------------------------------------------------
     def _new(self, kind, ast_=None):
         n = Node(len(self.nodes), kind, ast_)
+        n.cfg = self
         self.nodes.append(n)
         self.succ[n] = []
         self.pred[n] = []
@@ -770,6 +771,15 @@ class CFG:
                 return node
 
         return T().visit(_copy.deepcopy(expr))
+
+    def canon_target(self, node, target):
+        """text of an assignment target with a local alias at the base of its attribute chain expanded
+        (`c = self._collector; c.n = 0`  ->  `self._collector.n`)"""
+        t = ast.parse(ast.unparse(target), mode="eval").body
+        try:
+            return ast.unparse(self.expand(t, at=node))
+        except RecursionError:
+            return ast.unparse(target)
 
     def loop_of(self, node):
         """Innermost loop head whose natural loop contains node (None if not in a loop)."""
